@@ -575,7 +575,8 @@ def twClose (w : World) (tb : Tables) (st : St) (t : TW) : St × Bool :=
   else if t.expecting == -1 then
     let (st, _, err, p) := twFlushMessage w tb st t
     if p then (st, true) else if let some e := err then reportError w st e else (st, false)
-  else if !(t.buffer.getD []).isEmpty then reportError w st .other
+  else if t.buffer.isSome && (!(t.buffer.getD []).isEmpty || (!t.writingEnvelope && t.expecting > 0)) then
+    reportError w st .other        -- unfinished envelope, or an announced message that never came
   else (st, false)
 
 /-- `responseWriter.WriteHeader`. -/
